@@ -128,7 +128,8 @@ def _replay_states(states, seed):
 
 TAG_POOL = ['income', 'Income', 'INCOME', 'iNcOmE', 'investment', 'INVESTMENT', 'Investment',
             'transfer', 'Transfer', 'TRANSFER', 'food', 'recurring', 'incomes', 'transfers', 'in come',
-            '', ' income', 'income ', 'İncome', 'inveſtment', 'tranſfer', 'business', 'TAX']
+            '', ' income', 'income ', 'İncome', 'inveſtment', 'tranſfer', 'business', 'TAX',
+            'income-tax', 'Transfer-Fee', 'investment.fees', 'wire_transfer', 'non-income', 'transfer/out']
 
 
 def _gen_record(rnd, rid, max_len):
